@@ -63,7 +63,7 @@ fn map_case_strategy(group: u8) -> BoxedStrategy<MapCase> {
     (u_strategy(), second).prop_map(move |(u0, second)| MapCase { group, u0, second }).boxed()
 }
 
-fn u_g1(u: &URecipe) -> Fq {
+pub fn u_g1(u: &URecipe) -> Fq {
     match u {
         URecipe::Fe(f) => f.build().c0,
         URecipe::Zero => Fq::zero(),
@@ -76,7 +76,7 @@ fn u_g1(u: &URecipe) -> Fq {
     }
 }
 
-fn u_g2(u: &URecipe) -> Fq2 {
+pub fn u_g2(u: &URecipe) -> Fq2 {
     match u {
         URecipe::Fe(f) => f.build(),
         URecipe::Zero => Fq2::zero(),
